@@ -5,5 +5,6 @@ CONSTANTS
   BigDepths = {36}
   MaxZ = 7
   GridDepths = {35, 36, 37, 50, 64}
+  NearDepths = {4, 5, 8}
 INVARIANTS GridDelay ConvDelay TapRange ResetInit RingOK IdxLaw KernelForm SilentOut
 CHECK_DEADLOCK FALSE
